@@ -116,6 +116,22 @@ def replay_order_rule(ctx, rule):
     rule.ok(key, "filled at the %s, taken from the %s" % (g, "front" if g == "back" else "back"), takes[0][0].loc)
 
 
+def latest_instance_rule(ctx, r5):
+    """attach_latest_fdt_to_objects takes the instance push_fdt_obj has just stored and checked (shared with C19.R6: that instance is the only
+    one whose expiry was evaluated at this moment)"""
+    prog = ctx.prog
+    g2 = prog.fn(RC + "::push_fdt_obj")
+    al2 = prog.fn(RC + "::attach_latest_fdt_to_objects")
+    push_end = set(method_name(s).split("_")[-1] for s, ai, mut in calls_on_field(prog, RC, "fdt_current", funcs=[g2]) if method_name(s) in ("push_front", "push_back"))
+    take_end = set(re.sub(r"_mut$", "", method_name(s)) for s, ai, mut in calls_on_field(prog, RC, "fdt_current", funcs=[al2]) if method_name(s) in ("front", "front_mut", "back", "back_mut"))
+    key = "attach_latest_fdt_to_objects offers the instance that just completed"
+    if push_end and take_end and push_end == take_end:
+        r5.ok(key, "push_%s / %s" % (sorted(push_end)[0], sorted(take_end)[0]), loc(al2.sp))
+    else:
+        r5.violation(key, "push_fdt_obj stores the completed instance with push_%s but attach_latest_fdt_to_objects takes %s: waiting objects are offered an old "
+                          "instance and stay unattached for several cycles" % (sorted(push_end), sorted(take_end)), loc(al2.sp))
+
+
 def run(ctx):
     prog = ctx.prog
     ctx.explanation = (
@@ -232,16 +248,7 @@ def run(ctx):
                             "waiting objects is the one that just completed (same end of fdt_current as the push)", "PAIR under assumption + ARG")
     from . import c11
     c11.auto_publish_rule(ctx, r5)
-    g2 = prog.fn(RC + "::push_fdt_obj")
-    al2 = prog.fn(RC + "::attach_latest_fdt_to_objects")
-    push_end = set(method_name(s).split("_")[-1] for s, ai, mut in calls_on_field(prog, RC, "fdt_current", funcs=[g2]) if method_name(s) in ("push_front", "push_back"))
-    take_end = set(re.sub(r"_mut$", "", method_name(s)) for s, ai, mut in calls_on_field(prog, RC, "fdt_current", funcs=[al2]) if method_name(s) in ("front", "front_mut", "back", "back_mut"))
-    key = "attach_latest_fdt_to_objects offers the instance that just completed"
-    if push_end and take_end and push_end == take_end:
-        r5.ok(key, "push_%s / %s" % (sorted(push_end)[0], sorted(take_end)[0]), loc(al2.sp))
-    else:
-        r5.violation(key, "push_fdt_obj stores the completed instance with push_%s but attach_latest_fdt_to_objects takes %s: waiting objects are offered an old "
-                          "instance and stay unattached for several cycles" % (sorted(push_end), sorted(take_end)), loc(al2.sp))
+    latest_instance_rule(ctx, r5)
     r5.floor(2, "carousel FDT facts")
     from . import c01
     c01.decoding_params_provenance(ctx, ctx.rule("C16.R6", "a packet seen before the FDT must not freeze decoding parameters the FDT will bring: " + c01.DECODING_TEXT, "WWF + value provenance (shared with C03.R6)"))
